@@ -244,7 +244,11 @@ namespace Segment
 /-- `Segment::root(mmr_size, bitmap)`; `ok none` iff the segment is full and completely pruned -/
 def root (hf : HashFn α H) (s : Segment α H) (mmrSize : Nat) (bm : Option (Nat → Bool)) :
     Res (Option H) :=
-  rootWith hf s mmrSize bm (s.id.positions mmrSize) (s.id.full mmrSize) (s.id.peaksIn mmrSize)
+  -- `if self.segment_unpruned_size(mmr_size) == 0 { return Err(SegmentError::NonExistent) }`
+  -- (repair 362e7d94e: no such segment in an MMR of this size, which may be empty — before it the
+  -- range of an empty MMR was `0..=(0 - 1)`, wrapped in release, and the loop walked 2^64 positions)
+  if s.id.unprunedSize mmrSize = 0 then .err .nonExistent
+  else rootWith hf s mmrSize bm (s.id.positions mmrSize) (s.id.full mmrSize) (s.id.peaksIn mmrSize)
 
 end Segment
 
